@@ -2622,4 +2622,31 @@ example : (step exS (.wcreate 4 [.txt "w"] (some ⟨none, tokenDenom 4 [.txt "w"
 
 end Examples
 
+/-! ### chain export / import of the token factory (not an `Op`: the property quantifies over messages) -/
+
+/-- **reimport_keeps_control_and_supply.** Exporting the token factory's genesis and starting again from it keeps every
+admin record (a renounced denomination stays renounced, a handed-over one stays with its new admin), every balance, the
+supply and the mint / burn totals. -/
+theorem reimport_keeps_control_and_supply (st : St) :
+    (reimport st).admin = st.admin ∧ (reimport st).bal = st.bal ∧ (reimport st).supply = st.supply ∧
+    (reimport st).minted = st.minted ∧ (reimport st).burned = st.burned ∧ (reimport st).created = st.created ∧
+    (reimport st).grant = st.grant := ⟨rfl, rfl, rfl, rfl, rfl, rfl, rfl⟩
+
+/-- **reimport_never_removes_existence.** A denomination known to the bank stays known (so it still cannot be created again). -/
+theorem reimport_never_removes_existence (st : St) (d : Denom) (h : (st.dmeta d).isSome = true) :
+    ((reimport st).dmeta d).isSome = true := by
+  unfold reimport
+  by_cases hd : (deconstruct d).isSome = true <;> simp [hd, h]
+
+/-- **reimport_resets_custom_metadata.** What the unchanged tree does lose: the bank metadata an admin had set for a factory
+denomination is replaced by the default record (`createDenomAfterValidation` runs again on import).  Recorded as an
+observation in Props/C16.md: a restart, not a message of another account, is what changes the record. -/
+theorem reimport_resets_custom_metadata :
+    ∃ (st : St) (d : Denom), st.dmeta d = some 73 ∧ (reimport st).dmeta d = some 0 := by
+  refine ⟨{ bal := fun _ _ => 0, supply := fun _ => 0, admin := fun _ => none,
+            dmeta := fun d => if d = tokenDenom 1 [.txt "b"] then some 73 else none,
+            grant := fun _ _ => false, fee := 0, minted := fun _ => 0, burned := fun _ => 0, created := [] },
+          tokenDenom 1 [.txt "b"], by simp, ?_⟩
+  decide
+
 end Paloma.TokenFactory
